@@ -28,10 +28,10 @@ let show status obs (s : sys) =
     Printf.sprintf "%d/%d/%d%s%s" (List.length l.q_pend) (List.length l.q_batch) (List.length l.q_spent)
       (if l.q_drain then "d" else "") (if quitting s (nat_of_int i) then "q" else "")) s.s_loops in
   let mapped = List.length (List.filter (fun k -> k.k_mapped && k.k_ccb = CbServer) s.s_conns) in
-  Printf.printf "%s ev=%s | %s | q=%s srv=%d:%d cli=%d:%s\n" status
+  Printf.printf "%s ev=%s | %s | q=%s srv=%s:%d cli=%d:%s\n" status
     (if es = [] then "-" else String.concat "," es)
     (if cs = [] then "-" else String.concat " " cs) (String.concat ";" qs)
-    (b2i s.s_srv) mapped (b2i s.s_cli) (match s.s_cliconn with Some c -> n2s c | None -> "-");
+    (if s.s_dying then "D" else if s.s_srv then "1" else "0") mapped (b2i s.s_cli) (match s.s_cliconn with Some c -> n2s c | None -> "-");
   flush stdout
 let parse_api = function
   | "shutdown" -> AShutdown | "force" -> AForceClose | "forcedelay" -> AForceCloseDelay
